@@ -22,6 +22,10 @@ pub struct ExSocketAddr(std::net::SocketAddr);
 
 // effect witnesses (DESIGN 3.4): established only by the named call
 pub uninterp spec fn print_attempted(status: u16, no_body: bool, upgrade: bool) -> bool;
+// Printing a response is a capability: each entry point of the application-facing API is allowed exactly the response it
+// is about (respond: the given one; drop: the 500; as_reader: the interim 100; upgrade: the switching response) -- a second
+// response of another kind (say, a 500 appended after a failed write) is not among them (C06)
+pub uninterp spec fn may_print(status: u16, no_body: bool, upgrade: bool) -> bool;
 pub uninterp spec fn flush_called() -> bool;
 pub uninterp spec fn notified_responded(ch: int) -> bool;
 
@@ -68,6 +72,7 @@ impl<R> Response<R> {
 //@assume
 //@spec
     // ASSUMED in this unit (verified in U-RESP): one response with this status is serialised to `writer`
+    requires may_print(self.status(), do_not_send_body, upgrade is Some),
     ensures print_attempted(self.status(), do_not_send_body, upgrade is Some),
 //@endfn
 //@endimpl
@@ -211,6 +216,8 @@ impl Request {
         // requests without the expectation: the writer is not touched at all
         !old(self).pending_continue() ==> final(self).slot() == old(self).slot(),
         final(self).notify_chan() == old(self).notify_chan(),
+//@entry
+        proof { assume(forall|s: u16, b: bool, u: bool| #[trigger] may_print(s, b, u) <==> (s == 100 && b && !u)); }
 //@endfn
 
 //@fn into_writer ret w props C06
@@ -228,6 +235,8 @@ impl Request {
         // the switching-protocols response is the one final response: printed with the upgrade token, body allowed, then flushed
         print_attempted(response.status(), false, true),
         flush_called(),
+//@entry
+        proof { assume(forall|s: u16, b: bool, u: bool| #[trigger] may_print(s, b, u) <==> (s == response.status() && !b && u)); }
 //@before 1 if let Some ( sender )
         proof { assert(__self.answered()); }
 //@endfn
@@ -239,11 +248,13 @@ impl Request {
         print_attempted(response.status(), self.is_head(), false),
         res is Ok ==> flush_called(),
         self.notify_chan() is Some ==> notified_responded(self.notify_chan()->Some_0),
+//@entry
+        proof { assume(forall|s: u16, b: bool, u: bool| #[trigger] may_print(s, b, u) <==> (s == response.status() && b == __self.is_head() && !u)); }
 //@endfn
 
 //@fn respond_impl ret res props C06,C15
 //@spec
-    requires !old(self).answered(),
+    requires !old(self).answered(), may_print(response.status(), old(self).is_head(), false),
     ensures
         // O-RESPOND: the slot is taken, exactly the given response is printed on it (no body for HEAD), then flushed
         final(self).answered(),
@@ -277,6 +288,8 @@ impl Request {
         // ... an answered one is left alone
         old(self).answered() ==> *final(self) == *old(self),
         final(self).same_head(old(self)),
+//@entry
+        proof { assume(forall|s: u16, b: bool, u: bool| #[trigger] may_print(s, b, u) <==> (s == 500 && b == self.is_head() && !u)); }
 //@endfn
 //@endimpl
 
